@@ -218,6 +218,16 @@ func cmdCheck(args []string) int {
 		}
 	}
 	hs := eng.Harnesses()
+	if *tier != "thorough" {
+		// harnesses named *_thorough belong to the thorough tier only
+		var f []*gosym.Harness
+		for _, h := range hs {
+			if !strings.HasSuffix(h.Name, "_thorough") {
+				f = append(f, h)
+			}
+		}
+		hs = f
+	}
 	if *only != "" {
 		re := regexp.MustCompile(*only)
 		var f []*gosym.Harness
